@@ -25,7 +25,7 @@ def Shape (a : Algo) (len : Nat) (s0 s1 : Spec) : Prop :=
       s0.oop = 0 ∧ s1.oop = 0 ∧ s0.inplace ≤ s0.len ∧ s1.inplace ≤ s1.len
   | .raders => len = s0.len + 1
   | .bluesteins n => len = n ∧ 1 ≤ n ∧ 2 * n - 1 ≤ s0.len
-  | .radixLike => s0.len ∣ len ∧ 0 < s0.len
+  | .radixN | .radix4 | .radix3 => s0.len ∣ len ∧ 0 < s0.len
 
 /-- the `*Small` part of `Shape` is exactly "the constructor asserts pass" -/
 theorem smallAsserts_ok_iff (name : String) (w h : Spec) :
@@ -54,7 +54,8 @@ def Region.Disjoint (r1 r2 : Region) : Prop :=
 macro "exec_close" : tactic => `(tactic| (
   (try simp only [Gen.mixedRadix_inplace, Gen.mixedRadix_oop, Gen.mixedRadix_immut, Gen.goodThomas_inplace,
     Gen.goodThomas_oop, Gen.goodThomas_immut, Gen.raders_inplace, Gen.raders_oop, Gen.raders_immut,
-    Gen.bluesteins_scratch, Gen.radixN_inplace, Gen.radixN_oop, Gen.radixN_immut] at *)
+    Gen.bluesteins_scratch, Gen.radixN_inplace, Gen.radixN_oop, Gen.radixN_immut, Gen.radix4_inplace,
+    Gen.radix4_oop, Gen.radix4_immut, Gen.radix3_inplace, Gen.radix3_oop, Gen.radix3_immut] at *)
   repeat' split
   all_goals (try dsimp only at *)
   all_goals (try simp only [bufLen] at *)
@@ -111,10 +112,11 @@ as long as the split point -/
 theorem exec_split_points_valid (len : Nat) (s0 s1 : Spec) :
     len ≤ advertised .mixedRadix .inplace len s0 s1 ∧ len ≤ advertised .mixedRadix .immut len s0 s1 ∧
     len ≤ advertised .goodThomas .inplace len s0 s1 ∧ len ≤ advertised .goodThomas .immut len s0 s1 ∧
-    len ≤ advertised .radixLike .inplace len s0 s1 ∧
+    len ≤ advertised .radixN .inplace len s0 s1 ∧ len ≤ advertised .radix4 .inplace len s0 s1 ∧
+    len ≤ advertised .radix3 .inplace len s0 s1 ∧
     s0.len ≤ advertised .raders .inplace len s0 s1 ∧ s0.len ≤ advertised .raders .immut len s0 s1 ∧
     (∀ n e, s0.len ≤ advertised (.bluesteins n) e len s0 s1) := by
-  refine ⟨?_, ?_, ?_, ?_, ?_, ?_, ?_, ?_⟩
+  refine ⟨?_, ?_, ?_, ?_, ?_, ?_, ?_, ?_, ?_, ?_⟩
   any_goals intro n e
   all_goals simp only [advertised]
   all_goals exec_close
